@@ -17,33 +17,60 @@ STAGE_ROLE = {
 
 
 def five_stage_config(ctx: Ctx) -> dict:
-    """stages list (class names) and execution_ordering of the five-stage branch of
-    RiscvArchitecturalState.__init__."""
+    """Stage list (classes, constructor calls) and execution order of the pipeline RiscvArchitecturalState.__init__ builds in
+    five-stage mode: read off the normal form of __init__ -- the value stored in self.pipeline with the conditional values
+    resolved under `pipeline_mode == "five_stage_pipeline"` -- so locals, a helper, an if/else or a guard clause are one thing."""
+    cache = ctx.__dict__.setdefault("_five_stage_cfg", None)
+    if cache is not None:
+        return cache
+    from .parsershape import normal_flow
     m = ctx.model
     f = m.method("RiscvArchitecturalState", "__init__", own=True)
-    for n in walk_no_nested(f.node):
-        if isinstance(n, ast.If) and "five_stage_pipeline" in ast.unparse(n.test):
-            stages = order = None
-            stage_calls: list = []
-            for st in n.body:
-                if isinstance(st, ast.Assign) and len(st.targets) == 1 and isinstance(st.targets[0], ast.Name):
-                    if st.targets[0].id == "stages" and isinstance(st.value, ast.List):
-                        stages = []
-                        for e in st.value.elts:
-                            c = m.resolve_class(f.module, e.func) if isinstance(e, ast.Call) else None
-                            if c is None:
-                                raise AnalysisError(f"{f.loc(e)}: stage list element is not a constructor call")
-                            stages.append(c)
-                            stage_calls.append(e)
-                    elif st.targets[0].id == "execution_ordering":
-                        try:
-                            order = fold_in(m, f.module, st.value)
-                        except Unknown as exc:
-                            raise AnalysisError(f"{f.loc(st)}: execution_ordering does not fold: {exc}")
-            if stages is None or order is None:
-                raise AnalysisError("five-stage branch no longer binds `stages` and `execution_ordering`")
-            return {"func": f, "node": n, "stages": stages, "order": order, "stage_calls": stage_calls}
-    raise AnalysisError("anchor vanished: five_stage_pipeline branch of RiscvArchitecturalState.__init__")
+    fl = normal_flow(m, f)
+    pr = fl.cprinter
+    if "pipeline_mode" not in f.params:
+        raise AnalysisError("anchor vanished: pipeline_mode parameter of RiscvArchitecturalState.__init__")
+    five = ast.Compare(left=ast.Name(id="pipeline_mode", ctx=ast.Load()), ops=[ast.Eq()], comparators=[ast.Constant(value="five_stage_pipeline")])
+    fb = pr._bool(five)
+    found = None
+    for e in fl.effects:
+        if e.kind != "store" or not isinstance(e.expr, ast.Assign) or pr.show(e.expr.targets[0]).split("@")[0] != "P0.pipeline":
+            continue
+        cb = pr._mk("and", [fb] + [pr._bool(t, pol) for t, pol in e.cond])
+        t = pr._tables([cb])
+        if t is not None and t[1][0] == 0:
+            continue  # not in five-stage mode
+        v = pr.resolve_under(e.expr.value, cb)
+        if isinstance(v, ast.Call) and m.resolve_class(f.module, v.func) is m.cls("Pipeline"):
+            found = (e, v)
+    if found is None:
+        raise AnalysisError("anchor vanished: RiscvArchitecturalState.__init__ no longer stores Pipeline(..) in self.pipeline in five-stage mode")
+    e, call = found
+    pinit = m.method("Pipeline", "__init__")
+    names = pinit.params[1:]
+    given = {names[i]: a for i, a in enumerate(call.args) if i < len(names)}
+    given.update({k.arg: k.value for k in call.keywords if k.arg})
+    st_e, ord_e = given.get("stages"), given.get("execution_ordering")
+    if not isinstance(st_e, ast.List) or ord_e is None:
+        raise AnalysisError("five-stage branch no longer binds `stages` (a list of stage constructor calls) and `execution_ordering`")
+    stages, stage_calls = [], []
+    for x in st_e.elts:
+        c = m.resolve_class(f.module, x.func) if isinstance(x, ast.Call) else None
+        if c is None:
+            raise AnalysisError(f"{f.loc(e.node)}: stage list element `{ast.unparse(x)}` is not a constructor call")
+        stages.append(c)
+        stage_calls.append(x)
+    oe = ord_e
+    if isinstance(oe, ast.Call) and isinstance(oe.func, ast.Name) and oe.func.id in ("list", "tuple") and len(oe.args) == 1:
+        oe = oe.args[0]
+    try:
+        order = fold_in(m, f.module, oe)
+    except Unknown as exc:
+        raise AnalysisError(f"{f.loc(e.node)}: execution_ordering does not fold: {exc}")
+    order = list(order) if isinstance(order, (list, tuple)) else order
+    out = {"func": f, "node": e.node, "stages": stages, "order": order, "stage_calls": stage_calls}
+    ctx.__dict__["_five_stage_cfg"] = out
+    return out
 
 
 def order_rule(ctx: Ctx, rid: str) -> dict:
